@@ -17,7 +17,7 @@ demos=()
 for t in $m/*_test.go; do
   [ -f "$t" ] || continue
   pkg=$(grep -m1 '^package ' $t | awk '{print $2}')
-  case $pkg in evalfilter|evalfilter_test) dir=. ;; *) dir=${pkg%_test} ;; esac
+  case $pkg in evalfilter|evalfilter_test) dir=. ;; main) dir=cmd/evalfilter ;; *) dir=${pkg%_test} ;; esac
   cp $t $dir/zz_$(basename $t); demos+=("$dir")
 done
 echo "== demo on clean tree (must pass)"
